@@ -9,10 +9,7 @@ VERIF = os.path.dirname(os.path.dirname(os.path.abspath(__file__)))
 sys.path.insert(0, VERIF)
 from sa import registry  # noqa: E402
 
-NA = {
-    "C03": "MAP optimality is an arg-max over a numerically computed posterior; no clause of its own has a structural necessary "
-           "condition that is not already decided under C01/C16 (see DESIGN.md section 6). Static analysis cannot bound the values.",
-}
+NA = {}
 
 claimed, na = [], []
 for i in range(1, 21):
